@@ -225,7 +225,14 @@ func runC10(c *Check) {
 			panic(AnchorError{"dynamic algorithm call in " + fnTryRepair})
 		}
 		fv := p.T(dyn.Common().Value)
-		c.Req(p.IsCall(fv, "app.getRepairAlgorithm") && ResultOf(fv.Args[0], 0) != nil && p.IsCall(ResultOf(fv.Args[0], 0), fnSuitable), fnTryRepair, p.InstrPos(dyn), "algorithm:selected", "the algorithm called is the table entry of the selected type", "is "+fv.String())
+		// through the table's getter, or by indexing the table directly
+		var selT *Term
+		if p.IsCall(fv, "app.getRepairAlgorithm") {
+			selT = fv.Args[0]
+		} else if fv.Op == "lookup" && len(fv.Args) == 2 && (fv.Args[0].Name == "app.mapping") {
+			selT = fv.Args[1]
+		}
+		c.Req(selT != nil && ResultOf(selT, 0) != nil && p.IsCall(ResultOf(selT, 0), fnSuitable), fnTryRepair, p.InstrPos(dyn), "algorithm:selected", "the algorithm called is the table entry of the selected type", "is "+fv.String())
 		c.Gate(tfa, dyn, "algorithm:cooldown", "an algorithm runs only after the cooldown passed", p.OK(true, "(*app.ReplicationRepairState).cooldownPassed"))
 		c.Gate(tfa, dyn, "algorithm:selected-ok", "… and a type with attempts left was found", p.NilErr(fnSuitable))
 		Sf := p.MustFunc(fnSuitable)
